@@ -119,8 +119,12 @@ def oracle_pair(res, case, t1, t2, s1, s2, kw1, kw2, out):
             res.fail('compose differs from the structure of the composed tree', case, f'{comp} vs {got[1]}')
         tr = out[12]
         if tr[0] == 0 and s1.num_leaves > 0:
-            if s1.transform(None, lambda _l: s2) != comp:
+            trs = s1.transform(None, lambda _l: s2)
+            if trs != comp:
                 res.fail('transform replacing every leaf by s differs from compose(s)', case)
+            elif trs.__getstate__() != comp.__getstate__() or repr(trs) != repr(comp):
+                res.fail('transform replacing every leaf by s and compose(s) are == but differ in a field (namespace / repr / node data)',
+                         case, f'{trs!r} vs {comp!r}')
 
 
 def run(res, tier, seed):
